@@ -34,8 +34,8 @@ def datasets(rng, n=3) -> List[str]:
     return out
 
 
-def fixed_datasets(rng, n=3):
-    "a non-empty, a rich and a random dataset"
+def rich_dataset(rng):
+    "a dataset in which no collection is empty (so that First() etc. mostly evaluate)"
     from gen.data import gen_obj
 
     rich = [gen_obj(rng, "E") for _ in range(3)]
@@ -51,6 +51,12 @@ def fixed_datasets(rng, n=3):
                 j["vals"] = [2]
         if not e["els"]:
             e["els"] = [copy.deepcopy(e["jets"][0])]
+    return rich
+
+
+def fixed_datasets(rng, n=3):
+    "a rich dataset and random ones (Lean `Val` S-expressions)"
+    rich = rich_dataset(rng)
     out = [val_sexpr(rich)]
     for _ in range(n - 1):
         out.append(val_sexpr(gen_dataset(rng)))
